@@ -11,6 +11,7 @@ import NaijaVerif.Lemmas.AnalysisLiveTop
 import NaijaVerif.Lemmas.AnalysisLiveMono
 import NaijaVerif.Lemmas.AnalysisLiveModel
 import NaijaVerif.Lemmas.AnalysisRefineLawful
+import NaijaVerif.Lemmas.AnalysisRefineTop
 import NaijaVerif.Lemmas.EvalToy
 /-
 C03 — analysis-driven pruning never changes what a program does.
@@ -57,10 +58,25 @@ Proved here, for every program, every primitive semantics and every amount of fu
   `Lawful` by `evalPrims_lawful`, `ScopesFrom` by construction).  No hypothesis about the primitive
   semantics is left.  This very instance (at the driver's float numbers) is what the `arun` stream of
   the check runs against the real runtime, plain and pruned, on the real AST, facts and plan.
+* **`c03_bridge`** (= `bridge_to_eval : BridgeToEval`) and **`c03_bridge_converse`** (`Lemmas/AnalysisRefine*.lean`)
+  — the formal tie of that instance to the SHARED evaluator model `Model/Eval.lean` (the one the `run`
+  stream ties to the real runtime), in both directions: a run of the fragment that is not cut short by
+  its fuel is matched, for all sufficiently large fuel, by the run of `Eval` (declaring-scope lookup,
+  current code, no input), and a run of `Eval` that is not cut short by its fuel is matched by the run
+  of the fragment with enough fuel — same printed values, same ending, same kind of runtime error — for
+  every annotated program (`okBlock`, with the oracle `orcOf` computed from the facts and evaluated by
+  the driver on every case), with or without a plan.  The simulations cover the whole language (member
+  calls, mutating methods and index assignment included); the two evaluators count fuel differently,
+  hence "for some fuel".
+* **`c03_eval`** — C03 for `Eval.run` itself, no hypothesis about the fragment left: if the plain run of
+  `Eval` ends (within its fuel) normally or in a runtime error other than `Undefined variable`, then for
+  every plan contained in the model's plan the pruned run of `Eval` (with enough fuel) prints the same
+  values and ends the same way.  (By `Eval.run_mono` that is THE outcome of the pruned run for all larger
+  fuel.)  `c03_termination_transfer`: a run of `Eval` that ends is a run of the fragment that ends.
 Still evaluated per program rather than proved: the table-consistency conjuncts of `structOkB`
 (`storeTabB`: true by construction of the model's tables for distinct, pre-order statement ids; a
 proof needs the position arguments "`i ∈ unusedAsg` refers to THIS occurrence of statement `i`").
-Also open: T6 (verdicts) beyond never-read variables; the bridge to `Model/Eval.lean`.
+Also open: T6 (verdicts) beyond never-read variables.
 -/
 namespace NaijaVerif.C03
 open NaijaVerif NaijaVerif.Analysis NaijaVerif.AEval
@@ -431,6 +447,82 @@ theorem c03_concrete {N : Type} [NumOps N] (cfg : Eval.RunCfg) (root : Block) (f
       observable (run (evalPrims (N := N) cfg (declScopeOf facts) (stmtScopeOf facts)) none fuel root) :=
   c03_full_holds (Eval.Value N) _ tyE (evalPrims_lawful cfg _ _) root facts plan fuel ⟨rfl, rfl⟩ hs hsub hfuel hunb hpan
 
+/-! ### The shared evaluator model -/
+
+/-- The fragment instantiated with `Eval`'s primitive steps is refined by `Eval` (`BridgeToEval`,
+stated in `Lemmas/AnalysisBridge.lean`, proved in `Lemmas/AnalysisRefine*.lean`). -/
+theorem c03_bridge : BridgeToEval := bridge_to_eval
+
+theorem fragObs_congr {V : Type} {r1 r2 : R V (Flow V)} (h : observable r1 = observable r2) :
+    fragObs r1 = fragObs r2 := by
+  obtain ⟨e1, t1⟩ := r1
+  obtain ⟨e2, t2⟩ := r2
+  simp only [observable, Prod.mk.injEq] at h
+  obtain ⟨ho, he⟩ := h
+  cases e1 <;> cases e2 <;> simp only [Option.some.injEq, reduceCtorEq] at he <;> simp only [fragObs, ho]
+  subst he
+  rfl
+
+/-- The converse: every run of `Eval` that does not exhaust its fuel is a run of the fragment. -/
+theorem c03_bridge_converse {N : Type} [NumOps N] (cfg : Eval.RunCfg) (ds ss : Nat → Option Nat) (o : Orc)
+    (hl : cfg.lookup = .dynamic) (hp : cfg.panics = false) (hin : cfg.input = []) (ho : OrcOk N ds ss o)
+    (prog : Block) (plan : Option Plan) (f : Nat) (hok : okBlock o prog = true)
+    (hne : evalObs (Eval.run (N := N) { cfg with plan := plan.map toEvalPlan } f prog) ≠ none) :
+    ∃ n, fragObs (run (evalPrims (N := N) cfg ds ss) plan n prog) =
+      evalObs (Eval.run (N := N) { cfg with plan := plan.map toEvalPlan } f prog) :=
+  bridge_from_eval cfg ds ss o hl hp hin ho prog plan f hok hne
+
+/-- A run of `Eval` that ends without exhausting its fuel is matched by a run of the fragment that
+does not exhaust its fuel. -/
+def TerminationTransfer : Prop :=
+  ∀ (N : Type) [NumOps N] (cfg : Eval.RunCfg) (ds ss : Nat → Option Nat) (o : Orc),
+    cfg.lookup = .dynamic → cfg.panics = false → cfg.input = [] → OrcOk N ds ss o →
+    ∀ (prog : Block) (plan : Option Plan) (f : Nat), okBlock o prog = true →
+      evalObs (Eval.run (N := N) { cfg with plan := plan.map toEvalPlan } f prog) ≠ none →
+      ∃ n, fragObs (run (evalPrims (N := N) cfg ds ss) plan n prog) ≠ none
+
+theorem c03_termination_transfer : TerminationTransfer := by
+  intro N _ cfg ds ss o hl hp hin ho prog plan f hok hne
+  obtain ⟨n, hn⟩ := bridge_from_eval cfg ds ss o hl hp hin ho prog plan f hok hne
+  exact ⟨n, by rw [hn]; exact hne⟩
+
+/-- **C03 for the shared evaluator model.**  Let `Eval` run the current code (`panics = false`) with
+the declaring-scope lookup and no input, on an annotated program whose facts are consistent with it
+(`okBlock (orcOf …)`, `structOkB`: decidable, evaluated by the driver on every case of the tie).
+If the plain run with fuel `f` ends with the observation `o` — the printed values, and a normal ending
+or a runtime error other than `Undefined variable` — then for every plan contained in the model's plan
+the pruned run, with enough fuel, ends with the same observation: same printed values, same ending,
+same kind of runtime error.  (Runs that exhaust the fuel, crash the interpreter or use a variable
+before its declaration are excluded, as in `c03_full`.) -/
+theorem c03_eval {N : Type} [NumOps N] (cfg : Eval.RunCfg) (numOk : Bytes → Bool) (root : Block) (facts : Facts)
+    (plan : Plan) (f : Nat)
+    (hl : cfg.lookup = .dynamic) (hp : cfg.panics = false) (hin : cfg.input = [])
+    (hnum : ∀ lex, numOk lex = true → ∃ x : N, NumOps.ofLit lex = some x)
+    (hok : okBlock (orcOf numOk facts) root = true)
+    (hs : structOkB root facts = true) (hsub : plan.sub (planModel root facts) = true)
+    (o : List (Eval.Value N) × Nat)
+    (hrun : evalObs (Eval.run (N := N) { cfg with plan := none } f root) = some o)
+    (hund : o.2 ≠ 10 + rtCode .undefinedVariable) (hpan : o.2 ≠ 2) :
+    ∃ f', evalObs (Eval.run (N := N) { cfg with plan := some (toEvalPlan plan) } f' root) = some o := by
+  have ho := orcOf_ok (N := N) numOk facts true hnum
+  obtain ⟨n, hn⟩ := bridge_from_eval cfg _ _ _ hl hp hin ho root none f hok
+    (by rw [show (none : Option Plan).map toEvalPlan = none from rfl, hrun]; exact fun h => by cases h)
+  rw [show (none : Option Plan).map toEvalPlan = none from rfl, hrun] at hn
+  -- the three excluded endings of the fragment's plain run
+  have hends : (run (evalPrims (N := N) cfg (declScopeOf facts) (stmtScopeOf facts)) none n root).1 ≠ .error .fuel ∧
+      (run (evalPrims (N := N) cfg (declScopeOf facts) (stmtScopeOf facts)) none n root).1 ≠ .error .unbound ∧
+      (run (evalPrims (N := N) cfg (declScopeOf facts) (stmtScopeOf facts)) none n root).1 ≠ .error .panic := by
+    generalize run (evalPrims (N := N) cfg (declScopeOf facts) (stmtScopeOf facts)) none n root = r at hn
+    obtain ⟨e, t⟩ := r
+    refine ⟨?_, ?_, ?_⟩ <;> intro h <;> simp only at h <;> subst h <;> simp only [fragObs, Option.some.injEq] at hn
+    · cases hn
+    · exact hund (by rw [← hn])
+    · exact hpan (by rw [← hn])
+  have hc := c03_concrete (N := N) cfg root facts plan n hs hsub hends.1 hends.2.1 hends.2.2
+  obtain ⟨f', hf'⟩ := bridge_to_eval N cfg _ _ _ hl hp hin ho root (some plan) n hok
+    (by rw [fragObs_congr hc, hn]; exact fun h => by cases h)
+  exact ⟨f', by rw [show (some (toEvalPlan plan)) = (some plan).map toEvalPlan from rfl, hf', fragObs_congr hc, hn]⟩
+
 /-! ### Non-vacuity -/
 
 /-- `return` followed by a statement: the second statement is unreachable, ids are distinct, and
@@ -509,6 +601,23 @@ example : observable (run demo3Prims (some ⟨[1], []⟩) 20 demo3) = ([.num 3],
     c03_concrete Eval.Toy.cfg demo3 demo3Facts ⟨[1], []⟩ 20 (by decide) (by decide)
       (by intro h; cases h) (by intro h; cases h) (by intro h; cases h)]
   rfl
+
+/-- Non-vacuity of `c03_eval` / `c03_bridge` on `demo3`: the static side conditions of the bridge hold
+(the oracle computed from the facts), and the two runs of `Eval` the theorem speaks about are these. -/
+def toyNumOk (lex : Bytes) : Bool := (Eval.Toy.ofLit lex).isSome
+
+example : okBlock (orcOf toyNumOk demo3Facts) demo3 = true := by decide
+example : ∀ lex, toyNumOk lex = true → ∃ x : Int, NumOps.ofLit lex = some x := by
+  intro lex h
+  exact Option.isSome_iff_exists.mp h
+example : evalObs (Eval.run (N := Int) { Eval.Toy.cfg with plan := none } 20 demo3) = some ([.num 3], 0) := rfl
+example : evalObs (Eval.run (N := Int) { Eval.Toy.cfg with plan := some (toEvalPlan ⟨[1], []⟩) } 20 demo3) =
+    some ([.num 3], 0) := rfl
+/-- All hypotheses of `c03_eval` hold on `demo3` with the plan `{1}`. -/
+example : ∃ f', evalObs (Eval.run (N := Int) { Eval.Toy.cfg with plan := some (toEvalPlan ⟨[1], []⟩) } f' demo3) =
+    some ([.num 3], 0) :=
+  c03_eval (N := Int) Eval.Toy.cfg toyNumOk demo3 demo3Facts ⟨[1], []⟩ 20 rfl rfl rfl
+    (fun _ h => Option.isSome_iff_exists.mp h) (by decide) (by decide) (by decide) ([.num 3], 0) rfl (by decide) (by decide)
 
 /-- A primitive semantics in which the literal `1` fails: not `Lawful`. -/
 def badPrims : Prims Unit where
